@@ -114,10 +114,15 @@ class VJP(SxContract):
         self.model = m
         return {"X": X, "G": G}
 
+    def _lay(self, a):
+        # variant "column-major": data, predictions and incoming gradient handed in Fortran order (check_array keeps the caller's
+        # layout; an in-place shortcut through a transposed view only shows with such inputs)
+        return np.asfortranarray(a.copy()) if self.variant == "column-major" else a.copy()
+
     def body(self, inp):
         m = self.model
-        y = m._infer(inp["X"].copy())
-        grads = m._compute_grads(inp["X"].copy(), y, inp["G"].copy())
+        y = m._infer(self._lay(inp["X"]))
+        grads = m._compute_grads(self._lay(inp["X"]), self._lay(y) if self.variant == "column-major" else y, self._lay(inp["G"]))
         return {"y": y, "grads": grads, "weights": m._get_weights()}
 
     def ensures(self, inp, out):
@@ -165,8 +170,8 @@ class VJP(SxContract):
         if self.family == "kernel_rim":
             mf.reg = float(env["reg"])
         pen = (lambda: float(dag.fev(self.penalty, self._env(mf, env)))) if self.penalty is not None else (lambda: 0.0)
-        y = mf._infer(X.copy())
-        grads = mf._compute_grads(X.copy(), y, G.copy())
+        y = mf._infer(self._lay(X))
+        grads = mf._compute_grads(self._lay(X), self._lay(y) if self.variant == "column-major" else y, self._lay(G))
         W = mf._get_weights()
         res = {}
         h = 1e-6
